@@ -27,7 +27,10 @@
 (* consumed (Consume / ConsumeAsPartial = union), so "aggregate over       *)
 (* exactly that key's inputs" is vals = ids of the rows with that key.     *)
 (* The Go harness evaluates the concrete aggregates by reference functions *)
-(* over exactly these id sets.                                             *)
+(* over exactly these id sets.  Every row id stands for typed argument     *)
+(* values (several value TYPES occur within one group), so a partial is a  *)
+(* typed multiset and "merging partials = consuming the raw values" is     *)
+(* checked on the exact result value including its type.                   *)
 (*                                                                         *)
 (* Every behaviour is one case (input x batching x limit x declared order  *)
 (* x direct/partials) run to completion.  TLC checks EmittedOK in every    *)
